@@ -517,7 +517,7 @@ func (x *fnCtx) addVC(st *State, fnShort, kind string, ord int, sub string, goal
 	if goal == True {
 		// decided by the generator's simplifier: recorded, discharged syntactically
 		switch kind {
-		case "post", "at_call", "at_store", "only_calls", "inv_init", "inv_keep", "step", "pre", "monitor", "lemma", "lockpost":
+		case "post", "at_call", "at_store", "only_calls", "inv_init", "inv_keep", "step", "trace_step", "pre", "monitor", "lemma", "lockpost":
 			e.noteTrivial(name, fnShort, kind, ord, desc)
 		}
 		return
@@ -779,6 +779,13 @@ func (x *fnCtx) assumeValAllocated(st *State, v *Val) {
 	for i, l := range layout(v.T) {
 		if l.Role == "ref" || l.Role == "arr" {
 			x.assumeAllocated(st, v.L[i])
+		}
+	}
+	// A-IFACEREF: a non-nil value of one of the repository's own (non-empty) interface types
+	// is a pointer or a boxed struct: its payload is an object reference
+	if nt, ok := v.T.(*types.Named); ok && len(v.L) == 2 && nt.Obj().Pkg() != nil && strings.HasPrefix(nt.Obj().Pkg().Path(), repoPrefix) {
+		if it, ok := nt.Underlying().(*types.Interface); ok && it.NumMethods() > 0 {
+			x.assumeAllocated(st, v.L[1])
 		}
 	}
 	x.assumeDynType(st, v)
